@@ -8,7 +8,7 @@
 //! License: <https://github.com/pydicom/pydicom/blob/master/LICENSE>
 use byteordered::byteorder::{ByteOrder, LittleEndian};
 
-use dicom_encoding::adapters::{DecodeResult, PixelDataObject, PixelDataReader, decode_error};
+use dicom_encoding::adapters::{decode_error, DecodeResult, PixelDataObject, PixelDataReader};
 use dicom_encoding::snafu::prelude::*;
 use std::io::{self, Read, Seek};
 
@@ -72,7 +72,8 @@ impl PixelDataReader for RleLosslessAdapter {
             let fragment = &src
                 .fragment(i)
                 .whatever_context("No pixel data found for frame")?;
-            let mut offsets = read_rle_header(fragment);
+            let mut offsets =
+                read_rle_header(fragment).whatever_context("Invalid RLE header in fragment")?;
             offsets.push(fragment.len() as u32);
 
             for sample_number in 0..samples_per_pixel {
@@ -80,7 +81,11 @@ impl PixelDataReader for RleLosslessAdapter {
                     // ii is 1, 0, 3, 2, 5, 4 for the example above
                     // This is where the segment order correction occurs
                     let ii = sample_number * bytes_per_sample + byte_offset;
-                    let segment = &fragment[offsets[ii] as usize..offsets[ii + 1] as usize];
+                    let segment = offsets
+                        .get(ii)
+                        .zip(offsets.get(ii + 1))
+                        .and_then(|(&start, &end)| fragment.get(start as usize..end as usize))
+                        .whatever_context("Invalid RLE segment offsets in fragment")?;
                     let buff = io::Cursor::new(segment);
                     let (_, decoder) = PackBitsReader::new(buff, segment.len())
                         .whatever_context("Failed to read RLE segments")?;
@@ -111,7 +116,9 @@ impl PixelDataReader for RleLosslessAdapter {
                         .step_by(bytes_per_sample * samples_per_pixel)
                         .enumerate()
                     {
-                        dst[base_offset + dst_index] = decoded_segment[decoded_index];
+                        dst[base_offset + dst_index] = *decoded_segment
+                            .get(decoded_index)
+                            .whatever_context("RLE segment is shorter than the frame size")?;
                     }
                 }
             }
@@ -182,7 +189,8 @@ impl PixelDataReader for RleLosslessAdapter {
         let fragment = &src
             .fragment(frame as usize)
             .whatever_context("No pixel data found for frame")?;
-        let mut offsets = read_rle_header(fragment);
+        let mut offsets =
+            read_rle_header(fragment).whatever_context("Invalid RLE header in fragment")?;
         offsets.push(fragment.len() as u32);
 
         for sample_number in 0..samples_per_pixel {
@@ -190,7 +198,11 @@ impl PixelDataReader for RleLosslessAdapter {
                 // ii is 1, 0, 3, 2, 5, 4 for the example above
                 // This is where the segment order correction occurs
                 let ii = sample_number * bytes_per_sample + byte_offset;
-                let segment = &fragment[offsets[ii] as usize..offsets[ii + 1] as usize];
+                let segment = offsets
+                    .get(ii)
+                    .zip(offsets.get(ii + 1))
+                    .and_then(|(&start, &end)| fragment.get(start as usize..end as usize))
+                    .whatever_context("Invalid RLE segment offsets in fragment")?;
                 let buff = io::Cursor::new(segment);
                 let (_, decoder) = PackBitsReader::new(buff, segment.len())
                     .map_err(|e| Box::new(e) as Box<_>)
@@ -213,7 +225,9 @@ impl PixelDataReader for RleLosslessAdapter {
                     .step_by(bytes_per_sample * samples_per_pixel)
                     .enumerate()
                 {
-                    dst[base_offset + dst_index] = decoded_segment[decoded_index];
+                    dst[base_offset + dst_index] = *decoded_segment
+                        .get(decoded_index)
+                        .whatever_context("RLE segment is shorter than the frame size")?;
                 }
             }
         }
@@ -224,11 +238,14 @@ impl PixelDataReader for RleLosslessAdapter {
 // TODO(#125) implement `encode`
 
 // Read the RLE header and return the offsets
-fn read_rle_header(fragment: &[u8]) -> Vec<u32> {
-    let nr_segments = LittleEndian::read_u32(&fragment[0..4]);
-    let mut offsets = vec![0; nr_segments as usize];
-    LittleEndian::read_u32_into(&fragment[4..4 * (nr_segments + 1) as usize], &mut offsets);
-    offsets
+// Returns `None` if the fragment is too short to hold the header.
+fn read_rle_header(fragment: &[u8]) -> Option<Vec<u32>> {
+    let nr_segments = LittleEndian::read_u32(fragment.get(0..4)?) as usize;
+    let table_end = nr_segments.checked_mul(4)?.checked_add(4)?;
+    let table = fragment.get(4..table_end)?;
+    let mut offsets = vec![0; nr_segments];
+    LittleEndian::read_u32_into(table, &mut offsets);
+    Some(offsets)
 }
 
 /// PackBits Reader from the image-tiff crate
